@@ -1,0 +1,49 @@
+//go:build verif
+
+package segread
+
+// C04: merging per-segment statistics must equal the aggregate over the
+// matching events: avg = sum of the numeric values / number of numeric
+// values, count and sum merges are the sums of the parts.
+// Checked by /verif/bin/govc.  Comment-only file.
+
+//@ spec avgOf(ntype sutils.SS_DTYPE, i int64, f float64, count uint64) float64 = ite(ntype == sutils.SS_DT_FLOAT, f / float64(count), float64(i) / float64(count))
+
+//@ func getAverage
+//@   props C04
+//@   ensures [div-by-count] implies(count != 0 && (sum.Ntype == sutils.SS_DT_FLOAT || sum.Ntype == sutils.SS_DT_SIGNED_NUM), result1 == nil && feq(result0, avgOf(sum.Ntype, sum.IntgrVal, sum.FloatVal, count)))
+//@   ensures [no-count] implies(count == 0, result1 != nil)
+//@   ensures [bad-type] implies(count != 0 && !(sum.Ntype == sutils.SS_DT_FLOAT || sum.Ntype == sutils.SS_DT_SIGNED_NUM), result1 != nil)
+//@   pure
+//@   safe
+//@ end
+
+// avg over one segment: the mean of the NUMERIC values (a column may also hold
+// non-numeric strings, which count in Count but not in NumericCount).
+//@ func GetSegAvg
+//@   props C04
+//@   requires implies(currSegStat != nil, currSegStat.NumStats != nil)
+//@   ensures [first-segment] implies(runningSegStat == nil && currSegStat != nil && old(currSegStat.IsNumeric) && old(currSegStat.NumStats.NumericCount) != 0 && (old(currSegStat.NumStats.Sum.Ntype) == sutils.SS_DT_FLOAT || old(currSegStat.NumStats.Sum.Ntype) == sutils.SS_DT_SIGNED_NUM), result1 == nil && result0 != nil && result0.Ntype == sutils.SS_DT_FLOAT && feq(result0.FloatVal, avgOf(old(currSegStat.NumStats.Sum.Ntype), old(currSegStat.NumStats.Sum.IntgrVal), old(currSegStat.NumStats.Sum.FloatVal), old(currSegStat.NumStats.NumericCount))))
+//@   ensures [rejects-non-numeric] implies(currSegStat != nil && !old(currSegStat.IsNumeric), result1 != nil)
+//@ end
+
+//@ func GetSegCount
+//@   props C04
+//@   ensures [first-segment] implies(runningSegStat == nil && currSegStat != nil, result1 == nil && result0 != nil && result0.Ntype == sutils.SS_DT_SIGNED_NUM && result0.IntgrVal == int64(old(currSegStat.Count)))
+//@   ensures [merge] implies(runningSegStat != nil && currSegStat != nil, result1 == nil && result0 != nil && runningSegStat.Count == old(runningSegStat.Count) + old(currSegStat.Count) && result0.IntgrVal == int64(runningSegStat.Count))
+//@   ensures [nil] implies(currSegStat == nil, result1 != nil)
+//@   safe
+//@ end
+
+//@ func GetSegSum
+//@   props C04
+//@   requires implies(currSegStat != nil, currSegStat.NumStats != nil) && implies(runningSegStat != nil, runningSegStat.NumStats != nil) && runningSegStat != currSegStat
+//@   requires implies(runningSegStat != nil && currSegStat != nil, runningSegStat.NumStats != currSegStat.NumStats)
+//@   ensures [first-int] implies(runningSegStat == nil && currSegStat != nil && old(currSegStat.IsNumeric) && old(currSegStat.NumStats.Sum.Ntype) != sutils.SS_DT_FLOAT, result1 == nil && result0.Ntype == sutils.SS_DT_SIGNED_NUM && result0.IntgrVal == old(currSegStat.NumStats.Sum.IntgrVal))
+//@   ensures [first-float] implies(runningSegStat == nil && currSegStat != nil && old(currSegStat.IsNumeric) && old(currSegStat.NumStats.Sum.Ntype) == sutils.SS_DT_FLOAT, result1 == nil && result0.Ntype == sutils.SS_DT_FLOAT && feq(result0.FloatVal, old(currSegStat.NumStats.Sum.FloatVal)))
+//@   ensures [merge-int-int] implies(runningSegStat != nil && currSegStat != nil && old(currSegStat.IsNumeric) && old(currSegStat.NumStats.Sum.Ntype) != sutils.SS_DT_FLOAT && old(runningSegStat.NumStats.Sum.Ntype) != sutils.SS_DT_FLOAT, result1 == nil && result0.Ntype == sutils.SS_DT_SIGNED_NUM && result0.IntgrVal == old(runningSegStat.NumStats.Sum.IntgrVal) + old(currSegStat.NumStats.Sum.IntgrVal) && runningSegStat.NumStats.Sum.IntgrVal == result0.IntgrVal)
+//@   ensures [merge-float-float] implies(runningSegStat != nil && currSegStat != nil && old(currSegStat.IsNumeric) && old(currSegStat.NumStats.Sum.Ntype) == sutils.SS_DT_FLOAT && old(runningSegStat.NumStats.Sum.Ntype) == sutils.SS_DT_FLOAT, result1 == nil && result0.Ntype == sutils.SS_DT_FLOAT && feq(result0.FloatVal, old(runningSegStat.NumStats.Sum.FloatVal) + old(currSegStat.NumStats.Sum.FloatVal)))
+//@   ensures [merge-int-float] implies(runningSegStat != nil && currSegStat != nil && old(currSegStat.IsNumeric) && old(currSegStat.NumStats.Sum.Ntype) == sutils.SS_DT_FLOAT && old(runningSegStat.NumStats.Sum.Ntype) != sutils.SS_DT_FLOAT, result1 == nil && result0.Ntype == sutils.SS_DT_FLOAT && feq(result0.FloatVal, float64(old(runningSegStat.NumStats.Sum.IntgrVal)) + old(currSegStat.NumStats.Sum.FloatVal)))
+//@   ensures [merge-float-int] implies(runningSegStat != nil && currSegStat != nil && old(currSegStat.IsNumeric) && old(currSegStat.NumStats.Sum.Ntype) != sutils.SS_DT_FLOAT && old(runningSegStat.NumStats.Sum.Ntype) == sutils.SS_DT_FLOAT, result1 == nil && result0.Ntype == sutils.SS_DT_FLOAT && feq(result0.FloatVal, old(runningSegStat.NumStats.Sum.FloatVal) + float64(old(currSegStat.NumStats.Sum.IntgrVal))))
+//@   safe
+//@ end
